@@ -13,7 +13,7 @@ import (
 func init() {
 	register(&propInfo{
 		ID:          "C09",
-		Explanation: "Path analysis of the server's reply-producing code: (R09.1) the response encoder inserts \"jsonrpc\" and \"id\" on every path and exactly one of \"error\" (iff the error field is non-nil) and \"result\"; (R09.2) every response literal carries the constant version \"2.0\" and an id read from the request being answered; (R09.3) in the dispatcher every path of an id-bearing request emits at least one reply and no reply is ever followed by another one (a successful channel registration counts as the reply; the notification return after the user call emits none); (R09.4) no error reply is followed by the user call (dispatcher) or by dispatching the same request (reader); (R09.5) the protocol error codes at the method-lookup failure, arity mismatch, empty request/batch and envelope-decode failure sites are -32601, -32602, -32600 and -32700; (R09.6) batch framing: the array brackets and separators are produced by one framing provider that writes '[' for the first and ',' for every later element that actually produces output, every emitter inside the batch loop is given that provider, the closing bracket is written exactly when something was emitted, and the loop never aborts the array; (R09.7) over WebSocket a request without id is given a discarding, non-nil writer and an id-bearing one the locked message writer. (R09.1 also) the id member written by the encoder is the response's id field itself, never a converted value; (R09.11) every use of a message writer is json.NewEncoder, or a Write of a constant, of a json.Marshal result or of a writer wrapper's own parameter. (R09.12) the frame executor never blocks on something only a finishing handler releases; (R09.13) the id normaliser returns nil next to every error; (R09.14) a callback handed to a writer provider writes on every path.",
+		Explanation: "Path analysis of the server's reply-producing code: (R09.1) the response encoder inserts \"jsonrpc\" and \"id\" on every path and exactly one of \"error\" (iff the error field is non-nil) and \"result\"; (R09.2) every response literal carries the constant version \"2.0\" and an id read from the request being answered; (R09.3) in the dispatcher every path of an id-bearing request emits at least one reply and no reply is ever followed by another one (a successful channel registration counts as the reply; the notification return after the user call emits none); (R09.4) no error reply is followed by the user call (dispatcher) or by dispatching the same request (reader); (R09.5) the protocol error codes at the method-lookup failure, arity mismatch, empty request/batch and envelope-decode failure sites are -32601, -32602, -32600 and -32700; (R09.6) batch framing: the array brackets and separators are produced by one framing provider that writes '[' for the first and ',' for every later element that actually produces output, every emitter inside the batch loop is given that provider, the closing bracket is written exactly when something was emitted, and the loop never aborts the array; (R09.7) over WebSocket a request without id is given a discarding, non-nil writer and an id-bearing one the locked message writer. (R09.1 also) the id member written by the encoder is the response's id field itself, never a converted value; (R09.11) every use of a message writer is json.NewEncoder, or a Write of a constant, of a json.Marshal result or of a writer wrapper's own parameter. (R09.12) the frame executor never blocks on something only a finishing handler releases; (R09.13) the id normaliser returns nil next to every error; (R09.14) a callback handed to a writer provider writes on every path. (R09.6d) all replies of a batch are produced in one loop over its elements; (R09.15) every read of the method table in the dispatcher is a comma-ok lookup. (R09.16) no request decode is reachable after a synchronous dispatch.",
 		NotDecided:  "HTTP status codes, arbitrary body bytes and value encodings (encoding/json), a notification that fails before the user call still being answered with an id:null error (existing behaviour, outside the decided clauses).",
 		Assumptions: []string{"reply emitters are: calls of a value of the error-reply function type, the lazy-writer helper, and the channel registrar"},
 		Run:         runC09,
@@ -175,6 +175,8 @@ func runC09(c *Ctx) {
 	}
 	c.rule("R09.14", "a callback handed to a message-writer provider writes on every path (the batch framing and the one-reply-per-request count rely on 'invoked means written')")
 	c.callbackAlwaysWrites("R09.14")
+	c.rule("R09.16", "a body that is not valid JSON is answered with one -32700 and runs no handler: the whole body is decoded before the first request is dispatched (no request decode is reachable after a dispatch)")
+	c.decodedBeforeDispatch("R09.16")
 	c.rule("R09.15", "an unknown method (also an alias pointing nowhere) is answered with -32601: every read of the method table in the dispatcher is a comma-ok lookup")
 	c.descriptorFromCheckedLookup("R09.15")
 	c.rule("R09.12", "every id-bearing WebSocket request gets its response: the frame executor never blocks on something only a finishing handler releases")
@@ -1781,5 +1783,58 @@ func (c *Ctx) callbackAlwaysWrites(rule string) {
 	}
 	if n == 0 {
 		c.und(rule, "writer callbacks", "-", "none found")
+	}
+}
+
+// decodedBeforeDispatch: R09.16. Wherever the dispatcher is called synchronously (the reader path of
+// the HTTP / custom transport), no decode into a request (or a list of requests) is reachable after
+// the call: a batch is decoded as a whole, then dispatched. Decoding element by element and dispatching
+// each at once runs the handlers of the leading elements of a body that turns out to be malformed,
+// and answers with an array instead of the single -32700 object.
+func (c *Ctx) decodedBeforeDispatch(rule string) {
+	p, r := c.P, c.R
+	if r.FnDisp == nil || r.TReq == nil {
+		c.und(rule, "dispatcher / request type", "-", "not resolved")
+		return
+	}
+	isReqDecode := func(in ssa.Instruction) bool {
+		ci, ok := in.(ssa.CallInstruction)
+		if !ok {
+			return false
+		}
+		t := decodeTarget(ci)
+		if t == nil {
+			return false
+		}
+		pt, ok := t.Type().Underlying().(*types.Pointer)
+		if !ok {
+			return false
+		}
+		e := pt.Elem()
+		if sl, ok := e.Underlying().(*types.Slice); ok {
+			e = sl.Elem()
+		}
+		return e == types.Type(r.TReq)
+	}
+	n := 0
+	for _, call := range p.syncCallers(r.FnDisp) {
+		fn := call.Parent()
+		has := false
+		p.coneInstrs(outermost(fn), func(in ssa.Instruction) {
+			if isReqDecode(in) {
+				has = true
+			}
+		})
+		if !has {
+			continue
+		}
+		n++
+		construct := fmt.Sprintf("%s: requests are decoded before the first one is dispatched", fname(fn))
+		again := reachFrom(call, isReqDecode, nil)
+		c.check(again == nil, rule, construct, c.ipos(call), "no request decode reachable after the dispatch",
+			"after a request was dispatched another request can still be decoded from the same body (element-by-element decoding of a batch): when a later element is malformed the handlers of the earlier ones have already run and the reply is an array containing a -32700 element instead of the single -32700 object")
+	}
+	if n == 0 {
+		c.ok(rule, "synchronous dispatch", "-", "no function both decodes requests and dispatches them synchronously")
 	}
 }
